@@ -71,6 +71,8 @@ int main(int argc, char **argv) {
     else if (strcmp(dom, "intfmt") == 0) dom_intfmt();
     else if (strcmp(dom, "queue") == 0) dom_queue();
     else if (strcmp(dom, "regs") == 0) dom_regs();
+    else if (strcmp(dom, "heap") == 0) dom_heap();
+    else if (strcmp(dom, "lexer") == 0) dom_lexer();
     else { fprintf(stderr, "unknown domain %s\n", dom); return 2; }
     fflush(stdout);
     return 0;
